@@ -536,7 +536,7 @@ def o_outcome(v: View, stats=None, propagating=False):
     if not no_retry:
         if tl and o.timeline is None:
             yield "timeline-missing", "capture_timeline requested but outcome.timeline is None"
-        if tl == "obj" and o.timeline is not v.rec.timeline_obj:
+        if tl in ("obj", "objshared") and o.timeline is not v.rec.timeline_obj:
             yield "timeline-not-the-given-object", "outcome.timeline is not the RetryTimeline passed in"
     if stats is not None:
         stats["outcomes_checked"] = stats.get("outcomes_checked", 0) + 1
@@ -736,6 +736,9 @@ def o_events(v: View, stats=None):
     # timeline
     if v.is_execute and kind == "return" and getattr(val, "timeline", None) is not None and not v.no_retry:
         evs = val.timeline.events
+        if v.rec.objs.get("tl_before") is not None:
+            # a caller-supplied timeline (possibly reused across calls): this call's entries are the ones appended during it
+            evs = evs[v.rec.objs["tl_before"]:v.rec.objs.get("tl_after")]
         if len(evs) != len(mets):
             yield "timeline-count-differs", f"timeline {[e.event for e in evs]} vs metric {[m[1] for m in mets]}"
         else:
